@@ -44,7 +44,7 @@ BOUNDS = {
     "quick": "orders 2-4, mode sizes 2 (one 3), rank 1-2, K <= 3 sweeps (8 for the line-search branch), option sets listed in configs()",
     "thorough": "same plus rank 3 on 3x3x3 and 4 sweeps",
 }
-OUTSIDE = ["CMTF: the docstring writes the reported quantity with factors 1/2, the code reports it without; the check uses the code's form (documentation mismatch, not a value defect)", "masked Tucker/HOOI (which quantity is 'the' error of a masked iterate -- observed entries or the tensor imputed from the previous iterate -- is not fixed by the property; observed while building: partial_tucker keeps the norm of the un-imputed tensor)", "more sweeps than K (covered inductively only because kernels are havoc'd)", "sizes > 3", "IEEE rounding except the explicit sqrt-argument obligation"]
+OUTSIDE = ["order-4 HOOI (shape (2,2,2,2), rank 1) and PARAFAC2 with slice heights (3,2) at rank 2 with normalisation: the value identity was left undecided by z3 within 100 s per query (measured), so these sizes are outside the claim", "CMTF: the docstring writes the reported quantity with factors 1/2, the code reports it without; the check uses the code's form (documentation mismatch, not a value defect)", "masked Tucker/HOOI (which quantity is 'the' error of a masked iterate -- observed entries or the tensor imputed from the previous iterate -- is not fixed by the property; observed while building: partial_tucker keeps the norm of the un-imputed tensor)", "more sweeps than K (covered inductively only because kernels are havoc'd)", "sizes > 3", "IEEE rounding except the explicit sqrt-argument obligation"]
 TRUSTED = ["z3", "havoc/Givens kernel stubs", "sum-of-squares >= 0 lemmas (valid by construction)"]
 ASSUMPTIONS = ["data tensor is not identically zero (division by its norm)", "real arithmetic except the rounding-robustness obligation on sqrt arguments"]
 
@@ -105,11 +105,11 @@ def configs(tier):
         add("parafac", shape=shp, R=2, opt="mask_normalize", K=2)
         if shp == (2, 2):
             add("parafac", shape=shp, R=1, opt="sparsity", K=1)
-    for shp, rank in [((2, 2), (1, 1)), ((2, 2), (2, 1)), ((2, 2, 2), (1, 1, 1)), ((2, 2, 2), (2, 1, 1)), ((2, 2, 2), (2, 2, 1)), ((3, 2, 2), (1, 2, 1))] + ([] if q else [((2, 2, 2), (2, 2, 2)), ((2, 2, 2, 2), (1, 1, 1, 1))]):
+    for shp, rank in [((2, 2), (1, 1)), ((2, 2), (2, 1)), ((2, 2, 2), (1, 1, 1)), ((2, 2, 2), (2, 1, 1)), ((2, 2, 2), (2, 2, 1)), ((3, 2, 2), (1, 2, 1))] + ([] if q else [((2, 2, 2), (2, 2, 2))]):
         add("tucker", shape=shp, rank=rank, opt="plain", K=2, mode="fork")
     add("tucker", shape=(2, 2, 2), rank=(2, 1), opt="partial", modes=(0, 2), K=2, mode="fork")
     add("tucker", shape=(2, 2, 2), rank=(1, 2, 1), opt="random_init", K=2, mode="fork")
-    for rows, J, R in [((2, 2), 2, 1), ((2, 3), 2, 1), ((2, 2), 2, 2)] + ([] if q else [((3, 2), 2, 2), ((2, 2, 2), 2, 1)]):
+    for rows, J, R in [((2, 2), 2, 1), ((2, 3), 2, 1), ((2, 2), 2, 2)] + ([] if q else [((2, 2, 2), 2, 1)]):
         for opt in ("plain", "normalize", "svd_init"):
             add("parafac2", rows=rows, J=J, R=R, opt=opt, K=2, mode="fork")
     for alg in ("nn_parafac", "nn_parafac_hals", "constrained", "nn_tucker", "nn_tucker_hals"):
@@ -140,6 +140,10 @@ def configs(tier):
 
 def harness(E, cfg):
     fam = cfg["fam"]
+    if fam != "cmtf" and not E.symbolic:
+        # the compared quantities are relative errors (dimensionless): the replay tolerance must not shrink with the data
+        # scale, or the sqrt(eps) cancellation of the norm shortcut on an exact fit of tiny data is reported as a mismatch
+        E._floor_cache = 1.0
     if fam == "parafac":
         h_parafac(E, cfg)
     elif fam == "tucker":
